@@ -151,14 +151,16 @@ def objects():
         res = main_ape.ape(traj, traj2, pose_relation=metrics.PoseRelation.translation_part)
         df = pandas_bridge.trajectories_stats_to_df({"a": traj, "b": traj2})
 
-        def plots():
+        def plots(alt=False):
             pc = plot.PlotCollection("t")
             for nm in ("one", "two", "three"):
                 fig = plt.figure(figsize=(1, 1))
-                fig.gca().plot([0, 1], [0, 1])
+                fig.gca().plot([0, 1], [0, 1] if not alt else [1, 0])
                 pc.add_figure(nm, fig)
             return pc
-        _OBJ.update(traj=traj, res=res, df=df, plots=plots)
+        res_alt = main_ape.ape(traj, traj2, pose_relation=metrics.PoseRelation.rotation_angle_deg)
+        df_alt = pandas_bridge.trajectories_stats_to_df({"b": traj2})
+        _OBJ.update(traj=traj, res=res, df=df, plots=plots, traj_alt=traj2, res_alt=res_alt, df_alt=df_alt)
     return _OBJ
 
 
@@ -193,6 +195,8 @@ CLI = {
     "res2:save_plot_pdf": ("res", ["r1.zip", "r3.zip", "--save_plot", "out.pdf"], "evo/main_res.py", "export", ["out.pdf"]),
     "res2:save_plot_png": ("res", ["r1.zip", "r3.zip", "--save_plot", "out.png"], "evo/main_res.py", "export", None),
     "res2:serialize_plot": ("res", ["r1.zip", "r3.zip", "--serialize_plot", "out.ser"], "evo/main_res.py", "serialize", ["out.ser"]),
+    "ape:save_results_dot": ("ape", ["tum", "a.txt", "b.txt", "--save_results", "./out.zip"], "evo/main_ape.py", "save_res_file", ["out.zip"]),
+    "traj:save_table_updir": ("traj", ["tum", "a.txt", "b.txt", "--save_table", "sub/../out.csv"], "evo/main_traj.py", "save_df_as_table", ["out.csv"]),
     "config:generate_out": ("config", ["generate", "--align", "--plot_mode", "xz", "--downsample", "500", "-o", "out.json"],
                             "evo/main_config.py", "<generate>", ["out.json"]),
 }
@@ -254,13 +258,40 @@ def gen_cases(ctx):
                         if w == "export_split":
                             continue
                         yield {"kind": "fn", "writer": w, "pk": pk, "exists": ex, "confirm": cf, "answer": a}
+    # L7/L10: the same target under other spellings / awkward names; L1/L2: a second call meets the writer's own output
+    for w in FN_WRITERS:
+        if w == "export_split":
+            continue
+        for sp in ("dot", "updir", "abs", "space", "unicode", "looks-like-number"):
+            for pk in ("str", "path"):
+                for a in ("n", "y"):
+                    if (sp in ("space", "unicode", "looks-like-number") and pk == "path") or (w in ("serialize", "export_pdf") and pk == "path"):
+                        continue
+                    yield {"kind": "fn", "writer": w, "pk": pk, "exists": 1, "confirm": 1, "answer": a, "spell": sp}
+        for a in ("n", "y", ""):
+            yield {"kind": "fn", "writer": w, "pk": "str", "exists": 1, "confirm": 1, "answer": a, "prewrite": "self"}
+    for w in ("write_tum_trajectory_file", "write_kitti_poses_file", "save_res_file"):
+        yield {"kind": "fn-handle", "writer": w, "answer": "n"}
+    # L9: several outputs in one call, every pattern of existing targets x every y/decline assignment, argv order shuffled
+    import itertools
+    for cid, (_, _, spec) in COMBOS.items():
+        k = len(spec)
+        for exists in itertools.product((0, 1), repeat=k):
+            for ans in itertools.product(("y", "N"), repeat=sum(exists)):
+                order = list(range(k))
+                r.shuffle(order)
+                answers = [a if a == "y" else r.choice(["n", "", "Y", "yes"]) for a in ans]
+                yield {"kind": "cli-combo", "combo": cid, "exists": list(exists), "answers": answers, "order": order, "no_warnings": 0}
+        yield {"kind": "cli-combo", "combo": cid, "exists": [1] * k, "answers": ["n"], "order": list(range(k))[::-1], "no_warnings": 1}
     # split export through the function: patterns of existing files x answer sequences
     pats = [[0, 0, 0], [1, 1, 1], [0, 1, 0], [1, 0, 1], [0, 0, 1], [1, 1, 0]]
     seqs = [["y", "y", "y"], ["n"], ["y", "n"], ["y", "y", "n"], ["Y"], ["yes", "y"], ["", "y"], ["y", "", "y"]]
     for pk in ("str", "path"):
         for cf in (0, 1):
             for p in pats:
-                for s in (seqs if cf else [["n"]]):
+                for s in ((seqs if (ctx.thorough or pk == "str") else seqs[1:2]) if cf else [["n"]]):
+                    if not ctx.thorough and cf and pk == "str" and (pats.index(p) + seqs.index(s)) % 2:
+                        continue        # quick: half of the product (checkerboard), thorough: all of it
                     yield {"kind": "fn-multi", "pk": pk, "confirm": cf, "pattern": p, "answers": s}
     single = [c for c in CLI if CLI[c][4] is not None]
     multi = [c for c in CLI if CLI[c][4] is None]
@@ -278,7 +309,7 @@ def gen_cases(ctx):
                       ((1, 0, "n"), (1, 0, "y"), (1, 1, "n"), (0, 0, "n"))]
         fast_rest = [c for c in full if not slow(c) and c not in core_cases]
         slow_rest = [c for c in full if slow(c) and c not in core_cases]
-        chosen = core_cases + fast_rest + r.sample(slow_rest, 12)
+        chosen = core_cases + fast_rest + r.sample(slow_rest, 5)
     for c in chosen:
         yield c
     # evo_res asked "mismatching titles … go on anyway?" and answered 'n': exits before any write
@@ -294,7 +325,8 @@ def gen_cases(ctx):
     for cid in multi:
         combos = [(p, s, nw) for (p, s) in mp for nw in (0, 1)]
         if not ctx.thorough:
-            combos = [(p, s, 0) for (p, s) in mp[:4]] + [("all", ["n"], 1)] + r.sample(combos, 2)
+            slow = cid.startswith("res") or cid.startswith("traj")
+            combos = [(p, s, 0) for (p, s) in (mp[:2] if slow else mp[:4])] + [("all", ["n"], 1)] + r.sample(combos, 1 if slow else 2)
         for p, s, nw in combos:
             yield {"kind": "cli-multi", "option": cid, "pattern": p, "answers": s, "no_warnings": nw}
 
@@ -304,8 +336,10 @@ def targets_of_fn(w):
             "save_df_as_table": "t.csv", "serialize": "t.ser", "export_pdf": "t.pdf"}[w]
 
 
-def call_fn(w, path, cf):
-    o = objects()
+def call_fn(w, path, cf, alt=False):
+    o = dict(objects())
+    if alt:     # other data: the earlier output of the same writer that a second call then meets
+        o.update(traj=o["traj_alt"], res=o["res_alt"], df=o["df_alt"], plots=lambda: objects()["plots"](True))
     from evo.tools import file_interface, pandas_bridge
     if w == "write_tum_trajectory_file":
         return lambda: file_interface.write_tum_trajectory_file(path, o["traj"], confirm_overwrite=cf)
@@ -426,6 +460,51 @@ def judge_multi(ctx, case, files, enabled, answers, prompts, exc, before, after,
             ctx.fail(case, "other-files-untouched", f"{k} was modified")
 
 
+COMBOS = {
+    # (command, positional args, [(option, its args, target file, writer, module of the call site)] in the order evo writes them)
+    "traj:tum+kitti+table": ("traj", ["tum", "a.txt"], [
+        ("--save_as_tum", [], "a.tum", "write_tum_trajectory_file", "evo/main_traj.py"),
+        ("--save_as_kitti", [], "a.kitti", "write_kitti_poses_file", "evo/main_traj.py"),
+        ("--save_table", ["out.csv"], "out.csv", "save_df_as_table", "evo/main_traj.py")]),
+    "ape:serialize+results": ("ape", ["tum", "a.txt", "b.txt"], [
+        ("--serialize_plot", ["out.ser"], "out.ser", "serialize", "evo/common_ape_rpe.py"),
+        ("--save_results", ["out.zip"], "out.zip", "save_res_file", "evo/main_ape.py")]),
+}
+
+
+def judge_combo(ctx, case, enabled, prompts, exc, before, after, outs):
+    """several outputs requested in one call: every existing target gets its own question, in the order evo writes"""
+    per = case["per"]
+    case = {k: v for k, v in case.items() if k != "per"}
+    if exc is not None:
+        ctx.mismatch(case, "the command raised", exc, None)
+    want_prompts = 0
+    for (tgt, ex, a), out in zip(per, outs):
+        m_prompted, m_wrote = out.split(";")[0].split()
+        impl_wrote = (after.get(tgt) != before.get(tgt)) if ex else (tgt in after)
+        if (m_wrote == "1") != impl_wrote:
+            ctx.mismatch(case, f"target {tgt}: written={impl_wrote}, model says {m_wrote}", impl_wrote, m_wrote)
+        want_prompts += int(m_prompted)
+        if ex:
+            if enabled and a != "y" and after.get(tgt) != before[tgt]:
+                ctx.fail(case, "declined-keeps-file", f"{tgt} existed, its question was answered {a!r}, but its bytes changed")
+            if (not enabled or a == "y") and (after.get(tgt) == before[tgt] or not after.get(tgt)):
+                ctx.fail(case, "accepted-or-disabled-replaces", f"{tgt} existed, accepted / warnings disabled, but was not replaced")
+        elif not after.get(tgt):
+            ctx.fail(case, "absent-target-is-written", f"{tgt} did not exist and was not written")
+    n_existing = sum(1 for p in per if p[1])
+    if enabled and prompts < n_existing and any(after.get(t) != before[t] for (t, ex, _) in per if ex):
+        ctx.fail(case, "asks-before-overwriting", f"{n_existing} existing targets, {prompts} overwrite questions, and an existing file changed")
+    if prompts != want_prompts:
+        ctx.mismatch(case, "number of overwrite questions differs from the model", prompts, want_prompts)
+    for k, v in before.items():
+        if k not in [p[0] for p in per] and after.get(k) != v:
+            ctx.fail(case, "other-files-untouched", f"{k} was modified")
+    ctx.count("branch", "several-outputs-in-one-call")
+    ctx.count("dist", "combo:" + case["combo"])
+    ctx.record(case, n_existing > 0)
+
+
 def judge_bag(ctx, case, e):
     """evo_traj --save_as_bag: the target is a fresh time-stamped name written by rosbags' Writer, which refuses
     existing paths; there is no evo guard, so only the safety clause is checked (clock frozen to hit an existing name)"""
@@ -468,16 +547,24 @@ def judge_bag(ctx, case, e):
 def evaluate(ctx, cases):
     e = env()
     # pass 1: run the implementation, collect the driver lines
-    runs, lines = [], []
+    runs, lines, nlines = [], [], {}
     for case in cases:
         e.reset()
         kind = case["kind"]
         if kind == "fn":
             t = targets_of_fn(case["writer"])
+            sp = case.get("spell", "rel")
+            t = {"space": "t t" + t[1:], "unicode": "t\u00fc\u00df" + t[1:], "looks-like-number": "-1e3" + t[1:]}.get(sp, t)
+            if sp == "updir":
+                os.mkdir("sub")
+            given = {"dot": "./" + t, "updir": "sub/../" + t, "abs": os.path.join(e.dir, t)}.get(sp, t)
             if case["exists"]:
-                Path(t).write_bytes(SENTINEL)
+                if case.get("prewrite") == "self":      # L1/L2: the writer meets its own earlier output
+                    e.quiet(call_fn(case["writer"], t, False, alt=True), [])
+                else:
+                    Path(t).write_bytes(SENTINEL)
             before = e.snapshot()
-            path = t if case["pk"] == "str" else Path(t)
+            path = given if case["pk"] == "str" else Path(given)
             prompts, exc = e.quiet(call_fn(case["writer"], path, bool(case["confirm"])), [case["answer"]])
             after = e.snapshot()
             table_name = {"export_pdf": "export"}.get(case["writer"], case["writer"])
@@ -498,6 +585,8 @@ def evaluate(ctx, cases):
         elif kind == "cli":
             cid = case["option"]
             cmd, _, mfile, writer, targets = CLI[cid]
+            if "updir" in cid:
+                os.mkdir("sub")
             if case["exists"]:
                 for t in targets:
                     Path(t).write_bytes(SENTINEL)
@@ -511,6 +600,43 @@ def evaluate(ctx, cases):
             else:
                 lines.append(f"C17 cli {mfile} {writer} {case['no_warnings']} {case['exists']} {hexs(case['answer'])}")
             runs.append((case, targets, cmd == "config" or not case["no_warnings"], answers, prompts, exc, before, after))
+        elif kind == "fn-handle":
+            import io as _io
+            h = _io.BytesIO() if case["writer"] == "save_res_file" else _io.StringIO()
+            before = e.snapshot()
+            prompts, exc = e.quiet(call_fn(case["writer"], h, True), [case["answer"]])
+            after = e.snapshot()
+            if exc or prompts or after != before or not h.getvalue():
+                ctx.mismatch(case, "writer with a file handle: must write to the handle without asking",
+                             [exc, prompts, sorted(set(after) ^ set(before)), len(h.getvalue())], [None, 0, [], ">0"])
+            lines.append(f"C17 writer {case['writer']} handle 1 1 {hexs(case['answer'])}")
+            runs.append((case, [], True, [case["answer"]], prompts, exc, before, after))
+        elif kind == "cli-combo":
+            cmd, pos, outs_spec = COMBOS[case["combo"]]
+            for (_, _, tgt, _, _), ex in zip(outs_spec, case["exists"]):
+                if ex:
+                    Path(tgt).write_bytes(SENTINEL)
+            before = e.snapshot()
+            argv = list(pos)
+            for i in case["order"]:
+                argv += [outs_spec[i][0]] + outs_spec[i][1]
+            if case["no_warnings"]:
+                argv.append("--no_warnings")
+            import importlib
+            mod, par = importlib.import_module(f"evo.main_{cmd}"), importlib.import_module(f"evo.main_{cmd}_parser")
+            prompts, exc = e.quiet(lambda: mod.run(par.parser().parse_args(argv)), case["answers"])
+            after = e.snapshot()
+            ai = 0
+            per = []
+            for (_, _, tgt, writer, mfile), ex in zip(outs_spec, case["exists"]):
+                a = "n"
+                if ex and not case["no_warnings"]:
+                    a = case["answers"][ai] if ai < len(case["answers"]) else "n"
+                    ai += 1
+                per.append((tgt, ex, a))
+                lines.append(f"C17 cli {mfile} {writer} {case['no_warnings']} {ex} {hexs(a)}")
+            runs.append((dict(case, per=per), [p[0] for p in per], not case["no_warnings"], case["answers"], prompts, exc, before, after))
+            nlines[len(runs) - 1] = len(per)
         elif kind == "cli-bag":
             judge_bag(ctx, case, e)
         elif kind == "cli-multi":
@@ -532,8 +658,21 @@ def evaluate(ctx, cases):
             runs.append((case, files, not case["no_warnings"], case["answers"], prompts, exc, before, after))
         else:
             raise core.ToolError(f"unknown case kind {kind}")
-    outs = core.run_driver(lines)
-    for (case, targets, enabled, answers, prompts, exc, before, after), out in zip(runs, outs):
+    outs_all = core.run_driver(lines)
+    pos_out = 0
+    for ri, (case, targets, enabled, answers, prompts, exc, before, after) in enumerate(runs):
+        k = nlines.get(ri, 1)
+        out = outs_all[pos_out] if k == 1 else outs_all[pos_out: pos_out + k]
+        pos_out += k
+        if case["kind"] == "cli-combo":
+            judge_combo(ctx, case, enabled, prompts, exc, before, after, out)
+            continue
+        if case["kind"] == "fn-handle":
+            if out != "0 1":
+                ctx.mismatch(case, "model: a handle target must not be asked about", None, out)
+            ctx.count("branch", "handle-target")
+            ctx.record(case, False)
+            continue
         if case["kind"] in ("cli", "cli-multi"):
             want_other = 1 if (case["option"].startswith("res2:") and not case["no_warnings"]) else 0
             if len(case.get("other_prompts", [])) != want_other:
